@@ -125,7 +125,7 @@ impl Drop for Scratch {
     }
 }
 
-fn run_plan(plan: &C11Plan, want_trace: bool) -> RunOut {
+pub fn run_plan(plan: &C11Plan, want_trace: bool) -> RunOut {
     let mut out = RunOut::new();
     let scratch = Scratch::new();
     let dir = scratch.0.join("payload");
@@ -564,7 +564,7 @@ fn run_plan(plan: &C11Plan, want_trace: bool) -> RunOut {
     out
 }
 
-fn random_plan(rng: &mut Rng, max_size: u32) -> C11Plan {
+pub fn random_plan(rng: &mut Rng, max_size: u32) -> C11Plan {
     let block = match rng.below(10) {
         0 => 1,
         1 => 2,
